@@ -429,4 +429,108 @@ AliasApps(ty) ==
            item |-> [op |-> op, shape |-> Shape(ty), rel |-> "equal", form |-> "alias", e |-> AliasExpr(op, e),
                      want |-> IF x.sig = "ok" THEN Snap(x) ELSE NilV]] IN
   [i \in 1..Len(ops) |-> mk(ops[i])]
+
+---------------------------------------------------------------------------
+(* HISTORIES: operators are functions of their operands.                   *)
+(* Three values of one type are bound to variables (so lists, blobs,       *)
+(* tuples and variants are three OBJECTS), then 2-3 applications over the  *)
+(* same variables are evaluated one after the other: the same object on    *)
+(* the left, on the right, and inside a fresh container.  The expected     *)
+(* value of step k is what the dynamic semantics gives in the state the    *)
+(* earlier steps left; the laws require it to equal the value of the same  *)
+(* application evaluated alone right after the bindings, and on fresh      *)
+(* values (the literals written in place of the variables).                *)
+RECURSIVE AstTy(_)
+AstTy(ty) == CASE ty.k = "tint" -> TInt [] ty.k = "tfloat" -> TFloat [] ty.k = "tstr" -> TStr [] ty.k = "tbool" -> TBool
+               [] ty.k = "ttuple" -> TTuple([i \in 1..Len(ty.es) |-> AstTy(ty.es[i])])
+               [] ty.k = "tlist" -> TList(AstTy(ty.e))
+               [] ty.k = "tname" -> TName(ty.n)
+
+Z0 == IntT(<<0>>)
+WrapTy(w, ty) == IF w = "tup" THEN TupT(<<ty, Z0>>) ELSE IF w = "lst" THEN ListT(ty, 1) ELSE ty
+WrapE(w, e) == IF w = "tup" THEN Tup(<<e, I(0)>>) ELSE IF w = "lst" THEN Lst(<<e>>) ELSE e
+\* one step: operator, left and right variable (1..3; r = 0 for unary minus), wrapping of both operands
+HS(op, l, r, w) == [op |-> op, l |-> l, r |-> r, w |-> w]
+HT(n, need, steps) == [n |-> n, need |-> need, steps |-> steps]
+HistTemplates == <<
+  HT("eq-left",      "eq",  <<HS("==", 1, 2, ""), HS("==", 1, 3, ""), HS("==", 1, 1, "")>>),
+  HT("eq-repeat",    "eq",  <<HS("==", 1, 2, ""), HS("==", 1, 2, ""), HS("!=", 1, 2, "")>>),
+  HT("eq-flip",      "eq",  <<HS("!=", 1, 2, ""), HS("==", 2, 1, ""), HS("==", 1, 2, "")>>),
+  HT("eq-right",     "eq",  <<HS("==", 2, 1, ""), HS("==", 3, 1, ""), HS("==", 1, 3, "")>>),
+  HT("eq-inside",    "eq",  <<HS("==", 1, 2, "tup"), HS("==", 1, 3, "tup"), HS("==", 1, 3, "lst")>>),
+  HT("eq-mixed",     "eq",  <<HS("==", 1, 2, ""), HS("!=", 1, 3, "tup"), HS("!=", 1, 3, "")>>),
+  HT("ord-left",     "ord", <<HS("<", 1, 2, ""), HS("<", 1, 3, ""), HS("<=", 1, 3, "")>>),
+  HT("ord-right",    "ord", <<HS("<", 2, 1, ""), HS("<", 3, 1, ""), HS(">", 1, 3, "")>>),
+  HT("le-left",      "ord", <<HS("<=", 1, 2, ""), HS("<=", 1, 3, ""), HS(">=", 3, 1, "")>>),
+  HT("ord-flip",     "ord", <<HS("<", 1, 2, ""), HS("<", 2, 1, ""), HS("<=", 1, 2, "")>>),
+  HT("ord-repeat",   "ord", <<HS("<=", 1, 2, ""), HS("<=", 1, 2, ""), HS(">=", 1, 2, "")>>),
+  HT("ord-then-eq",  "ord", <<HS(">", 1, 3, ""), HS("<", 1, 3, ""), HS("==", 1, 3, "")>>),
+  HT("ord-inside",   "ord", <<HS("<", 1, 2, "tup"), HS(">=", 1, 2, "tup"), HS("<", 2, 1, "tup")>>),
+  HT("add-repeat",   "add", <<HS("+", 1, 2, ""), HS("+", 1, 2, ""), HS("==", 1, 3, "")>>),
+  HT("add-left",     "add", <<HS("+", 1, 2, ""), HS("+", 1, 3, ""), HS("+", 3, 1, "")>>),
+  HT("arith-left",   "num", <<HS("-", 1, 2, ""), HS("-", 1, 3, ""), HS("*", 1, 3, "")>>),
+  HT("arith-right",  "num", <<HS("*", 2, 1, ""), HS("*", 3, 1, ""), HS("/", 3, 1, "")>>),
+  HT("sub-flip",     "num", <<HS("-", 1, 2, ""), HS("-", 2, 1, ""), HS("-", 1, 2, "")>>),
+  HT("mul-div",      "num", <<HS("*", 1, 2, ""), HS("/", 1, 2, ""), HS("*", 1, 2, "")>>),
+  HT("neg-repeat",   "num", <<HS("neg", 1, 0, ""), HS("neg", 1, 0, ""), HS("+", 1, 3, "")>>),
+  HT("arith-inside", "num", <<HS("+", 1, 2, "tup"), HS("-", 1, 2, "tup"), HS("==", 1, 2, "tup")>> ) >>
+
+TemplatesFor(ty) == SelectSeq(HistTemplates, LAMBDA t : \/ t.need = "eq"
+                                                        \/ t.need = "ord" /\ Ordered(ty)
+                                                        \/ t.need = "add" /\ Addable(ty)
+                                                        \/ t.need = "num" /\ Numeric(ty))
+
+\* history types: [ty, qs]; every triple of values (quick: every qs-th triple, qs coprime to Count^3)
+HIntS == IntT(<<0, 1>>)
+HInt3 == IntT(<<0, 1, 0 - 1>>)
+HL1   == ListT(HIntS, 1)
+HistTable == <<
+  TE(ListT(HIntS, 2), 5),                                                           \* list
+  TE(TupT(<<HInt3, HIntS>>), 7),                                                    \* tuple
+  TE(BlobT("B", <<[f |-> "p", ty |-> TupT(<<HIntS, StrT(<<"a">>)>>)], [f |-> "q", ty |-> HL1]>>), 5),   \* blob holding a tuple and a list
+  TE(EnumT("E", <<UV0("N"), UV1("I", HIntS), UV1("L", HL1)>>), 5),                  \* enum value, list payload
+  TE(TupT(<<HL1, HIntS>>), 5),                                                      \* list in tuple
+  TE(ListT(TupT(<<HIntS>>), 2), 5),                                                 \* tuple in list
+  TE(ListT(HL1, 2), 31),                                                            \* list in list
+  TE(TupT(<<TupT(<<HIntS, HIntS>>), HIntS>>), 11),                                  \* tuple in tuple
+  TE(TupT(<<StrT(<<"a", "b">>), HIntS>>), 3),                                       \* tuple with a string
+  TE(BlobT("C", <<[f |-> "a", ty |-> BlobA(HIntS)], [f |-> "e", ty |-> EnumT("E", <<UV0("N"), UV1("I", HIntS)>>)]>>), 5),  \* blob in blob
+  TE(ListT(BlobA(HIntS), 2), 5),                                                    \* blob in list
+  TE(StrT(<<"a", "b">>), 1), TE(HIntS, 1) >>
+
+RECURSIVE HistRun(_, _, _, _, _)
+HistRun(exprs, k, fr, S, acc) ==
+  IF k > Len(exprs) THEN acc
+  ELSE LET r == EvalE(exprs[k], fr, S) IN HistRun(exprs, k + 1, fr, IF r.sig = "ok" THEN r.s ELSE S, Append(acc, r))
+
+StepExpr(s, x) == IF s.op = "neg" THEN Un("-", x[s.l]) ELSE Bin(s.op, WrapE(s.w, x[s.l]), WrapE(s.w, x[s.r]))
+SameResult(a, b) == a.sig = b.sig /\ (a.sig = "ok" => Snap(a) = Snap(b))
+
+\* history number h (within its batch) of type ty: values idx = <<i, j, k>>, template tpl
+History(ty, idx, tpl, h) ==
+  LET lits == [m \in 1..3 |-> Nth(ty, idx[m])]
+      vars == [m \in 1..3 |-> V(m)]
+      binds == [m \in 1..3 |-> DefC(m, AstTy(ty), lits[m])]
+      F0 == NewFrame(S0, 0)
+      fr == LastAddr(F0)
+      B == ExecSeq(binds, 1, fr, F0)
+      n == Len(tpl.steps)
+      exprs == [k \in 1..n |-> StepExpr(tpl.steps[k], vars)]
+      fresh == [k \in 1..n |-> StepExpr(tpl.steps[k], lits)]
+      seq == HistRun(exprs, 1, fr, B.s, <<>>)
+      val(m) == ValueIn(B.s, fr, m)
+      app(k) == LET s == tpl.steps[k]
+                    r == seq[k]
+                    alone == EvalE(exprs[k], fr, B.s)
+                    lit == EvalE(fresh[k], 0, S0)
+                    risk == IF s.op = "neg" THEN HasFloatZero(val(s.l)) ELSE NegZeroRisk(s.op, val(s.l), val(s.r)) IN
+                [ok |-> r.sig = "ok" /\ ~risk,
+                 stuck |-> r.sig # "ok" /\ IsStuck(r.s.status),
+                 item |-> [op |-> s.op, shape |-> Shape(WrapTy(s.w, ty)),
+                           rel |-> IF s.op = "neg" THEN "unary" ELSE Rel(lits[s.l], lits[s.r]),
+                           form |-> "hist:" \o tpl.n \o ":" \o ToString(k), e |-> exprs[k],
+                           want |-> IF r.sig = "ok" THEN Snap(r) ELSE NilV, h |-> h, k |-> k],
+                 laws |-> Law(SameResult(r, alone), "step-independent-of-history")
+                          \cup Law(SameResult(r, lit), "step-equals-application-on-fresh-values")] IN
+  [apps |-> [k \in 1..n |-> app(k)], binds |-> binds, bound |-> B.sig = "ok"]
 =============================================================================
